@@ -143,7 +143,8 @@ func init() {
 		ix := o.One(e.Calls(ss, "(*am/silence.Silences).indexSilence"), "set-index", "setSilence must index added silences", ss)
 		o.Guarded(ix, "set-index-guard", "indexing", sAdded)
 		o.Check(e.Arg(ix, 1) == "p0.Silence", "set-index-arg", "setSilence must index the silence it stored", ix)
-		o.Forced(ss, "set-index-forced", "an added silence must be indexed", IsInstr(ix), sAdded)
+		smg := o.One(e.Calls(ss, "(am/silence.state).merge"), "set-merge", "setSilence must merge into the state", ss)
+		o.ForcedAfter(smg, "set-index-forced", "an added silence must be indexed", IsInstr(ix), sAdded)
 		var sb []ssa.Instruction
 		for _, in := range AllInstrs(ss) {
 			if c, ok := in.(*ssa.Call); ok && calleeName(&c.Call) == "dyn" && strings.HasPrefix(e.X(ss, c), "dyn(fn=recv.broadcast") {
@@ -153,7 +154,7 @@ func init() {
 		o.Require(len(sb) == 1, "set-bcast", "setSilence must broadcast at exactly one site", nil)
 		o.Site(sb[0], "setSilence broadcast")
 		o.Guarded(sb[0], "set-bcast-guard", "broadcasting a local change", sChanged)
-		o.Forced(ss, "set-bcast-forced", "a changed silence must be broadcast to the peers", IsInstr(sb[0]), sChanged)
+		o.ForcedAfter(smg, "set-bcast-forced", "a changed silence must be broadcast to the peers", IsInstr(sb[0]), sChanged)
 		o.Check(e.Arg(sb[0].(ssa.CallInstruction), 0) == "am/silence.marshalMeshSilence(p0)#0", "set-bcast-arg", "the broadcast payload must be the marshalled silence", sb[0])
 		o.MinSites(5)
 	})
